@@ -254,7 +254,7 @@ spif_bool_t
 spif_ustr_init_from_fd(spif_ustr_t self, int fd)
 {
     int n;
-    spif_charptr_t p;
+    spif_ustridx_t off = 0;
 
     ASSERT_RVAL(!SPIF_USTR_ISNULL(self), FALSE);
     ASSERT_RVAL((fd >= 0), FALSE);
@@ -264,12 +264,17 @@ spif_ustr_init_from_fd(spif_ustr_t self, int fd)
     self->len = 0;
     self->s = (spif_charptr_t) MALLOC(self->size);
 
-    for (p = self->s; ((n = read(fd, p, buff_inc)) > 0) || (errno == EINTR);) {
-        self->size += n;
-        self->s = (spif_charptr_t) REALLOC(self->s, self->size);
-        p += n;
+    for (;;) {
+        n = read(fd, self->s + off, buff_inc);
+        if (n > 0) {
+            off += n;
+            self->size = off + buff_inc;
+            self->s = (spif_charptr_t) REALLOC(self->s, self->size);
+        } else if ((n == 0) || (errno != EINTR)) {
+            break;
+        }
     }
-    self->len = self->size - buff_inc;
+    self->len = off;
     self->size = self->len + 1;
     self->s = (spif_charptr_t) REALLOC(self->s, self->size);
     self->s[self->len] = 0;
